@@ -130,7 +130,7 @@ namespace glm
 	template<length_t L, typename T, qualifier Q>
 	GLM_FUNC_DECL vec<L, T, Q> floorMultiple(vec<L, T, Q> const& v, vec<L, T, Q> const& Multiple);
 
-	/// Lower multiple number of Source.
+	/// Closest multiple number of Source, the one closer to zero when Source is halfway between two multiples.
 	///
 	/// @tparam genType Floating-point or integer scalar or vector types.
 	///
@@ -141,7 +141,7 @@ namespace glm
 	template<typename genType>
 	GLM_FUNC_DECL genType roundMultiple(genType v, genType Multiple);
 
-	/// Lower multiple number of Source.
+	/// Closest multiple number of Source, the one closer to zero when Source is halfway between two multiples.
 	///
 	/// @tparam L Integer between 1 and 4 included that qualify the dimension of the vector
 	/// @tparam T Floating-point or integer scalar types
